@@ -19,6 +19,11 @@ ASSUMPTIONS = ['A1-A6; faults are modelled as OSError raised by a primitive of t
 MINIMUM = {'R17.1': 1, 'R17.2': 6, 'R17.3': 2, 'R17.4': 1, 'R17.5': 1, 'R17.6': 1}
 
 
+# rules of sibling properties that are necessary conditions of this one too
+# (evaluated by the sibling module on the same graphs, reported under this property)
+ALSO = {'C01': {'R01.3': 'a failed move always releases the reservation',
+         'R01.7': 'the copy+delete fallback is taken for EXDEV only'}}
+
 def errno_allow(c, pol):
     """(cond, pol) restricts the caught error to listed errno values."""
     c, pol = unwrap_not(c, pol)
